@@ -1,6 +1,6 @@
 """C05 -- Only credentials the auth back-end accepts authenticate, as exactly that user.
 
-1. proof: Props/C05.v (gate, htpasswd, login mapping) over the regenerated Gen/LoginMapGen.v and
+1. proof: Props/C05.v (gate, htpasswd, login mapping) over the regenerated Gen/LoginMapC05Gen.v and
    Gen/GateSkelGen.v (tie T: translate/t_c05.py, lemmas Gen_map_login_eq / Gen_gate_skeleton_eq).
 2. correspondence (tie K):
    text      Model/C05Text.v (str.isspace / strip / text-mode line iteration) against CPython;
